@@ -180,6 +180,18 @@ func (e *Env) eval(n *Node, hint *Sym) *Sym {
 	panic("cannot evaluate " + n.Op)
 }
 
+func (e *Env) macro(name string) *LetDef {
+	if e.lets != nil {
+		if ld, ok := e.lets[name]; ok {
+			return ld
+		}
+	}
+	if ld, ok := e.x.sp.Macros[name]; ok {
+		return ld
+	}
+	return nil
+}
+
 func (e *Env) lit(v *big.Int, hint *Sym) *Sym {
 	if hint != nil && len(hint.L) == 1 {
 		h := hint.L[0]
@@ -216,15 +228,13 @@ func (e *Env) ident(name string, hint *Sym) *Sym {
 	if v, ok := e.vars[name]; ok {
 		return v
 	}
-	if e.lets != nil {
-		if ln, ok := e.lets[name]; ok && len(ln.Params) == 0 {
-			if e.depth > 20 {
-				panic("recursive let " + name)
-			}
-			ne := *e
-			ne.depth++
-			return ne.eval(ln.Expr, hint)
+	if ln := e.macro(name); ln != nil && len(ln.Params) == 0 {
+		if e.depth > 20 {
+			panic("recursive let " + name)
 		}
+		ne := *e
+		ne.depth++
+		return ne.eval(ln.Expr, hint)
 	}
 	if e.locals != nil {
 		if v, ok := e.locals(name); ok {
@@ -664,6 +674,21 @@ func (e *Env) call(n *Node, hint *Sym) *Sym {
 			panic("mapval of aggregate-valued map")
 		}
 		return &Sym{L: []*Term{mkSelect(e.x.hp.heapGet(e.st, val[0]), m.term())}}
+	case "entry_arrays_unchanged":
+		// every backing array (of the argument's element type) that existed at function entry is unchanged
+		v := e.eval(n.Args[0], nil)
+		if v.T == nil || kindOf(v.T) != KSlice || e.old == nil || e.x.ctr0 == nil {
+			panic("entry_arrays_unchanged needs a slice expression")
+		}
+		var cs []*Term
+		for _, f := range familiesOf(RElem, v.T.Underlying().(*types.Slice).Elem()) {
+			cur, old := e.x.hp.heapGet(e.st, f), e.x.hp.heapGet(e.old, f)
+			if cur.S == old.S {
+				continue
+			}
+			cs = append(cs, mkRaw(fmt.Sprintf("(forall ((r!e Int)) (! (=> (<= r!e ctr0) (= (select %s r!e) (select %s r!e))) :pattern ((select %s r!e))))", cur.S, old.S, cur.S), SBool))
+		}
+		return scalar(types.Typ[types.Bool], mkAnd(cs...))
 	case "entry_objects_unchanged":
 		// every object of the argument's struct type that existed at function entry has all its
 		// fields as at entry (a heap frame usable as loop invariant)
@@ -696,7 +721,22 @@ func (e *Env) call(n *Node, hint *Sym) *Sym {
 	case "allocated":
 		x := e.eval(n.Args[0], nil)
 		return scalar(types.Typ[types.Bool], mkAnd(app(SBool, "<", mkInt64(0), x.L[0]), app(SBool, "<=", x.L[0], e.st.ctr)))
+	case "ifield":
+		// ifield(x, "pkg.Type", "Field"): field of the struct value boxed in interface value x
+		v := e.eval(n.Args[0], nil)
+		t := e.x.typeByName(n.Args[1].Name)
+		stT, ok := t.Underlying().(*types.Struct)
+		if !ok {
+			panic("ifield: not a struct type: " + n.Args[1].Name)
+		}
+		idx, _ := findField(stT, n.Args[2].Name)
+		if idx < 0 {
+			panic("ifield: no field " + n.Args[2].Name)
+		}
+		lv := (&LVal{Root: RStruct, Ref: v.term(), RootT: t, T: t}).fieldOf(idx)
+		return e.x.hp.load(e.st, lv)
 	case "dyn":
+		e.x.vc.declFunGlobal("dyntype", []string{SInt}, SInt)
 		x := e.eval(n.Args[0], nil)
 		return &Sym{L: []*Term{app(SInt, "dyntype", x.term())}}
 	case "typeid":
@@ -720,8 +760,8 @@ func (e *Env) call(n *Node, hint *Sym) *Sym {
 		}
 		panic("no local " + n.Args[0].Name)
 	}
-	if e.lets != nil {
-		if ld, ok := e.lets[name]; ok && len(ld.Params) > 0 {
+	if ld := e.macro(name); ld != nil && len(ld.Params) > 0 {
+		{
 			if len(ld.Params) != len(n.Args) {
 				panic("macro " + name + ": wrong number of arguments")
 			}
